@@ -31,9 +31,10 @@ def main(ids):
         results = json.load(open(os.path.join(SEEDED, "results.json")))
     except Exception:
         pass
+    results = {k: v for k, v in results.items() if os.path.exists(os.path.join(SEEDED, k, "meta.json"))}
     for sid in sorted(os.listdir(SEEDED)):
         d = os.path.join(SEEDED, sid)
-        if not os.path.isdir(d) or (ids and sid not in ids):
+        if not os.path.isdir(d) or (ids and sid not in ids) or not os.path.exists(os.path.join(d, "meta.json")):
             continue
         meta = json.load(open(os.path.join(d, "meta.json")))
         wt = "/tmp/seedwt_%s_%d" % (sid, os.getpid())
